@@ -20,7 +20,8 @@ EXEC_LOCATIONS = ["QUERY", "MUTATION", "SUBSCRIPTION", "FIELD", "FRAGMENT_DEFINI
 
 _STRINGS = ["", "a", "hello world", 'q"uote', "back\\slash", "tab\there", "line\nbreak", "x y z",
             "No longer supported", "   lead", "trail  ", "semi;colon", "#hash", "brace{}", "5x", "e10x",
-            "café", " sep", "\U0001F600"]
+            "café", " sep", "\U0001F600", "rocket \U0001F680", "\U00010000", "\U0010FFFF", "sep\u2028", "ctl\b\f.", "del\x7f",
+            "bmp\uffff", 'q"\\"\U0001F680']
 _ASCII_STRINGS = [s for s in _STRINGS if all(ord(c) < 127 for c in s)]
 _DESCS = ["A description", "desc with \"quotes\" inside", "ends with quote\"", "multi\nline", "  leading ws",
           "first\n  indented\nlast", "x", "semi; colon: and, commas", "back\\slash", 'triple """ quote',
@@ -28,7 +29,8 @@ _DESCS = ["A description", "desc with \"quotes\" inside", "ends with quote\"", "
           "long " * 30 + "tail", "a-b_c " * 25, "noboundary" * 14, "été",
           "x" * 69, "y" * 70, "z" * 71, "ends with backslash\\", "b\\", "long " * 15 + "tail\\", "two\nlines\\",
           "First paragraph.\u2028Second paragraph.", "sep\u2029here", "nel\x85inside", "nbsp\xa0x", "bom\ufeffx",
-          "word " * 20 + "\u2028tail", "l1\nl2\u2028x\nl3\x85y", "trail\u2028", "\u2029lead", "a\u2028\u2029\x85b", "ab " * 40 + "x", "q" * 120, "cd " * 38 + "efgh ij", "w" * 112 + " " + "v" * 12]
+          "word " * 20 + "\u2028tail", "l1\nl2\u2028x\nl3\x85y", "trail\u2028", "\u2029lead", "a\u2028\u2029\x85b", "ab " * 40 + "x", "q" * 120, "cd " * 38 + "efgh ij", "w" * 112 + " " + "v" * 12,
+          "rocket \U0001F680", "\U00010000 and \U0010FFFF", "del\x7fx", "bmp\uffffx"]
 _ROOT_CASE_VARIANTS = ["query", "QUERY", "qUERY", "mutation", "MUTATION", "Mutation_", "subscription",
                        "SubScription", "SUBSCRIPTION", "Querys"]
 _FIELD_NAMES = ["id", "name", "value", "items", "owner", "next", "count", "flag", "data", "kind", "fooBar", "snake_case"]
@@ -154,6 +156,39 @@ class Gen:
             depth += 1
         return t
 
+    def covariant(self, t):
+        """A sub-type of the (interface field) type t drawn from the wrapper lattice: non-null added at any
+        level -- T! for T, [T]! / [T!] / [T!]! for [T], [[T]!] for [[T]] ...; the named core is specialised
+        afterwards (specialise_cores) once objects and unions are known."""
+        r = self.rng
+        if isinstance(t, str):
+            return {"nn": t} if r.random() < 0.3 else t
+        if "nn" in t:
+            inner = self.covariant(t["nn"])
+            return inner if isinstance(inner, dict) and "nn" in inner else {"nn": inner}
+        inner = self.covariant(t["list"])
+        out = {"list": inner}
+        return {"nn": out} if r.random() < 0.35 else out
+
+    def specialise_cores(self):
+        """object-for-interface / member-for-union inside whatever wrappers the implementing field has"""
+        r = self.rng
+        for o in self.objects.values():
+            for i in o.get("ifaces", []):
+                for f in self.interfaces[i]["fields"]:
+                    core = type_core(f["type"])
+                    if core in self.interfaces:
+                        subs = [x["name"] for x in self.objects.values() if core in x.get("ifaces", [])]
+                    elif core in self.unions:
+                        subs = list(self.unions[core].get("members", []))
+                    else:
+                        continue
+                    if not subs or r.random() >= 0.4:
+                        continue
+                    for g in o["fields"]:
+                        if g["name"] == f["name"] and type_core(g["type"]) == core:
+                            g["type"] = with_core(g["type"], r.choice(subs))
+
     def int_lit(self):
         r = self.rng
         return {"k": "int", "v": str(r.choice([0, 1, -1, 7, 42, -300, 2147483646, -2147483647, r.randint(-99999, 99999)]))}
@@ -273,7 +308,9 @@ class Gen:
             return None
         if c < 0.85:
             return {"reason": None}
-        pool = ["use other", "No longer supported", 'with "quote"', "multi\nline", "tab\t"]
+        pool = ["use other", "No longer supported", 'with "quote"', "multi\nline", "tab\t",
+                "rocket \U0001F680", "\U00010000", "max \U0010FFFF.", "caf\u00e9", "sep\u2028here", "back\\slash \\u0041",
+                "ctl\b\f\t\n.", "del\x7f", "bmp\uffff", "\U0001F680\U0001F600 two", 'q"\\"\U0001F680']
         if not self.c12:
             pool.append("")
         return {"reason": r.choice(pool)}
@@ -404,8 +441,7 @@ class Gen:
                         g = copy.deepcopy(f)
                         g["desc"] = self.desc(0.2)
                         g["dep"] = self.deprecation()
-                        if isinstance(g["type"], str) and r.random() < 0.3:
-                            g["type"] = {"nn": g["type"]}
+                        g["type"] = self.covariant(g["type"])
                         seen.add(g["name"])
                         fields.append(g)
                     continue
@@ -419,6 +455,7 @@ class Gen:
         for n in un_names:
             ms = r.sample(ob_names, r.randint(1, min(3, len(ob_names))))
             self.unions[n].update(desc=self.desc(), dirs=self.dirapps("UNION"), members=ms)
+        self.specialise_cores()
         scalars = [{"kind": "scalar", "name": n, "desc": self.desc(), "dirs": self.dirapps("SCALAR")} for n in self.scalars]
         types = (scalars + list(self.enums.values()) + list(self.inputs.values()) + list(self.interfaces.values())
                  + list(self.objects.values()) + list(self.unions.values()))
@@ -427,6 +464,41 @@ class Gen:
                 t["pinned"] = True
         return {"types": types, "directives": self.directives, "roots": roots, "explicit_schema": explicit,
                 "schema_dirs": self.dirapps("SCHEMA") if explicit else []}
+
+
+def type_core(t):
+    while not isinstance(t, str):
+        t = t.get("nn", t.get("list"))
+    return t
+
+
+def with_core(t, name):
+    if isinstance(t, str):
+        return name
+    k = "nn" if "nn" in t else "list"
+    return {k: with_core(t[k], name)}
+
+
+def supertype_variants(t):
+    """strict super-types of t obtained by dropping one non-null wrapper (at any level)"""
+    out = []
+    if isinstance(t, str):
+        return out
+    if "nn" in t:
+        out.append(t["nn"])
+        out += [{"nn": x} for x in supertype_variants(t["nn"])]
+    else:
+        out += [{"list": x} for x in supertype_variants(t["list"])]
+    return out
+
+
+def subtype_variants(t, top=True):
+    """strict sub-types of t obtained by adding one non-null wrapper (at any level)"""
+    if isinstance(t, str):
+        return [{"nn": t}] if top else []
+    if "nn" in t:
+        return [{"nn": x} for x in subtype_variants(t["nn"], False)]
+    return ([{"nn": t}] if top else []) + [{"list": x} for x in subtype_variants(t["list"], True)]
 
 
 # ------------------------------------------------------------------ rendering
@@ -456,7 +528,7 @@ def dep_str(dep):
         return ""
     if dep["reason"] is None:
         return " @deprecated"
-    return " @deprecated(reason: %s)" % json.dumps(dep["reason"])
+    return " @deprecated(reason: %s)" % json.dumps(dep["reason"], ensure_ascii=False)
 
 
 def ivalue_str(a, indent=""):
@@ -623,7 +695,7 @@ def invalidate(spec, rng):
               "output-in-input-position-default", "input-in-output-position", "bad-default-kind",
               "bad-default-enum", "bad-default-null", "bad-default-missing-field", "bad-default-int-range",
               "bad-deprecated-reason", "override-specified-directive", "interface-field-missing",
-              "interface-field-type", "empty-object", "empty-union", "no-query", "root-not-object",
+              "interface-field-type", "interface-field-contravariant", "empty-object", "empty-union", "no-query", "root-not-object",
               "reserved-type-name", "reserved-field-name", "ext-unknown-field-type"]
     label = r.choice(labels)
     extra = []          # extra blocks appended to the rendered document
@@ -842,6 +914,27 @@ def invalidate(spec, rng):
             for f in t["fields"]:
                 if f["name"] == fname:
                     f["type"] = {"list": {"list": {"list": "Boolean"}}}
+        kind = K_SCHEMA
+    elif label == "interface-field-contravariant":
+        # the implementing field is a strict SUPER-type of the interface field (a non-null dropped at some
+        # level, or the interface field made non-null at some level): rejected
+        cands = [t for t in s["types"] if t["kind"] == "object" and t["ifaces"]]
+        if not cands:
+            return None
+        t = r.choice(cands)
+        iface = [x for x in s["types"] if x["name"] == r.choice(t["ifaces"])][0]
+        f = r.choice(iface["fields"])
+        g = [x for x in t["fields"] if x["name"] == f["name"]][0]
+        sup = supertype_variants(f["type"])
+        if sup and r.random() < 0.6:
+            g["type"] = with_core(r.choice(sup), type_core(g["type"]))
+        else:
+            # tighten the interface instead: one more non-null at some level, the object keeps the old type
+            tight = subtype_variants(f["type"])
+            if not tight:
+                return None
+            g["type"] = with_core(copy.deepcopy(f["type"]), type_core(g["type"]))
+            f["type"] = r.choice(tight)
         kind = K_SCHEMA
     elif label == "empty-object":
         s["types"].append({"kind": "object", "name": "Empty", "desc": None, "dirs": [], "ifaces": [], "fields": []})
